@@ -85,6 +85,7 @@ def run_case(c):
     nd = c['ducts']
     r['nontrivial'] = True
     r['states'] = 1
+    r['traces'] = 1
 
     def bad(kind, what, obs=None, exp=None, tol=None):
         V.append(violation(kind, c, what, obs, exp, tol))
